@@ -19,7 +19,7 @@ import (
 func init() {
 	Props["C15"] = &harness.Prop{
 		ID:             "C15",
-		Rule:           "histories: alphabet of 25 inputs (incl. four MSM4/MSM7 frames whose cells and satellites carry the reserved 'invalid' values, three MSM frames that carry a time error from the handler and are also too short to decode) (1005, 1006, MSM4 and MSM7 of GPS, Galileo, GLONASS and BeiDou with cells, four MSM messages whose cell masks have the same value and length but the shapes 2x3, 3x2, 1x6 and 6x1, 1230, an unknown type, non-RTCM text, a CRC-broken frame); every sequence of length <=3 (quick) / <=4 (thorough) through ONE handler at both log levels; each element is decoded (Analyse) and displayed twice; oracle: decoded structure deep-equal and text (without the MSM time lines) equal to those of a fresh handler, second and third display identical, decoded fields after display deep-equal to those of an undisplayed twin, raw bytes unchanged, and every message decoded earlier in the history and still held is displayed again and deep-compared after each later frame (nothing may be shared between messages); value copies of a delivered message: what consumer A does with its copy (String, Analyse, field assignments) leaves consumer B's copy deep-equal to a pristine one. concurrency: two (thorough: also three) threads decoding and displaying frames on separate handlers and on value copies of one message, with scheduling points at every function and loop entry of rtcm/handler, rtcm/utils, rtcm/header and the six MSM and two station packages; every schedule with <=1 (quick) / <=2 (thorough) preemptions; oracle: every result equals the sequential baseline. Non-trivial = histories of length >=2 / distinct schedule traces",
+		Rule:           "histories: alphabet of 25 inputs (incl. four MSM4/MSM7 frames whose cells and satellites carry the reserved 'invalid' values, three MSM frames that carry a time error from the handler and are also too short to decode) (1005, 1006, MSM4 and MSM7 of GPS, Galileo, GLONASS and BeiDou with cells, four MSM messages whose cell masks have the same value and length but the shapes 2x3, 3x2, 1x6 and 6x1, 1230, an unknown type, non-RTCM text, a CRC-broken frame); every sequence of length <=3 (quick) / <=4 (thorough) through ONE handler at both log levels; each element is decoded (Analyse) and displayed twice; oracle: decoded structure deep-equal and text (without the MSM time lines) equal to those of a fresh handler, second and third display identical, decoded fields after display deep-equal to those of an undisplayed twin, raw bytes unchanged, and every message decoded earlier in the history and still held is displayed again and deep-compared after each later frame (nothing may be shared between messages); value copies of a delivered message: what consumer A does with its copy (String, Analyse, field assignments) leaves consumer B's copy deep-equal to a pristine one, also when A displays first at a different log level or after the message was analysed. concurrency: two (thorough: also three) threads decoding and displaying frames on separate handlers and on value copies of one message, with scheduling points at every function and loop entry of rtcm/handler, rtcm/utils, rtcm/header and the six MSM and two station packages; every schedule with <=1 (quick) / <=2 (thorough) preemptions; oracle: every result equals the sequential baseline. Non-trivial = histories of length >=2 / distinct schedule traces",
 		Assumptions:    []string{"interleavings inside unsynchronised code are explored at function/loop-entry granularity; 'no data race' at the memory-model level is outside a cooperative scheduler and only touched by the auxiliary -race pass", "the two MSM time lines ('Time ...', 'Start of ... week ...') are removed before comparing texts, as the statement excludes them"},
 		Pre:            c15Histories,
 		Scenarios:      c15Scenarios,
@@ -277,6 +277,21 @@ func c15Histories(r *ev.Run) {
 				a.RawData = nil
 				if !reflect.DeepEqual(b, pristine) {
 					fail("consumer-copy-affected-by-other-consumer", lvl, []string{in.name}, "B's copy changed after A used its own")
+				}
+				// A chooses another display level for ITS copy and displays it first
+				if m4, _ := handler.New(T0, lvl).GetMessage(append([]byte{}, in.bytes...)); m4 != nil {
+					a4, b4 := *m4, *m4
+					a4.LogLevel = slog.LevelInfo
+					if lvl == slog.LevelInfo {
+						a4.LogLevel = slog.LevelDebug
+					}
+					_ = a4.String()
+					if t4 := stripTimeLines(b4.String()); t4 != base[i].text {
+						fail("consumer-copy-display-follows-the-other-consumers-level", lvl, []string{in.name}, "B's display after A displayed its copy at another level")
+					}
+					if !reflect.DeepEqual(b4.Readable, base[i].readable) {
+						fail("consumer-copy-decoded-fields-follow-the-other-consumers-level", lvl, []string{in.name}, "B's decoded structure after A displayed its copy at another level")
+					}
 				}
 				tb := stripTimeLines(b.String())
 				if tb != base[i].text {
